@@ -140,7 +140,8 @@ class Check:
                   f"{inst.module}:{inst.function} [{inst.construct}] "
                   f"{e.get('what_fails', '')} ({inst.loc})")
 
-        replay_dir = os.path.join(VERIF, "evidence", "replay")
+        replay_dir = os.environ.get("OQV_REPLAY_DIR") or \
+            os.path.join(VERIF, "evidence", "replay")
         replays = []
         if violations:
             os.makedirs(replay_dir, exist_ok=True)
